@@ -864,6 +864,10 @@ impl<'a> Worker<'a> {
                     oplog: res.oplog[..cand.at_op.min(res.oplog.len())].to_vec(),
                     count: 1,
                 };
+                if std::env::var("SYMX_STOP_ON_VIOLATION").is_ok() {
+                    // (seed regression: one confirmed violation is enough)
+                    self.stop.store(true, Ordering::Relaxed);
+                }
                 if let Some(e) = self.rep.findings.iter_mut().find(|e| e.kind == f.kind) {
                     e.count += 1;
                     if f.oplog.len() < e.oplog.len() {
